@@ -63,7 +63,7 @@ ASSUMPTIONS = [
     "(per-cell models of the encoders belong to C13).  Not generated: LinearModelEncoder (wraps user models).  ExcelFormer "
     "with StackEncoder IS generated (0 and >= 1 training steps) and reported under the key "
     "column-dead:ExcelFormer:StackEncoder (constant prediction).  LinearBucketEncoder cases run in "
-    "float32 (it raises under a float64 default dtype), tolerance 2e-5 relative there",
+    "float32 (it raises under a float64 default dtype), tolerance 2e-4 relative there",
     "completeness trials re-draw parameters from the SAME state (fresh initialisation + the same training history), "
     "never by adding noise: a column that cannot influence a freshly initialised model is reported",
     "the feature encoder is an argument Enc with the hypothesis acts_rowwise in the general C14 theorems; for the "
@@ -225,12 +225,60 @@ def gen_case(rng, model, opts, task, big=False, history=None, n_num=None, n_cat=
     return case
 
 
+REQUIRED_SEED = 14014
+
+
+def required_cases():
+    """A deterministic stream (own constant seed, independent of VERIF_SEED and of the tier) that alone satisfies every
+    requirement of sanity(): each numerical column kind, a 2-row frame, both dtypes, every constructor argument at two
+    values (one of them non-default), zero-step and trained histories.  Marked "req": the ratio requirements of
+    sanity() are evaluated over this stream."""
+    rng = C.Rng(REQUIRED_SEED)
+    out = []
+
+    def add(model, opts, task, history, dtype, n_num, n_cat, kinds=None, n=None):
+        c = gen_case(rng, model, opts, task, history=history, n_num=n_num, n_cat=n_cat)
+        if kinds is not None or n is not None:
+            nn = n or c["data"]["n"]
+            c["data"] = P.gen_data(rng, nn, n_num, n_cat, task, 0.3, num_kinds=kinds)
+            rows = list(range(nn))
+            c["idxs"] = [[0], rows[::-1], [rows[-1], 0, 0], rows[:1]]
+        c["dtype"] = dtype
+        c["req"] = True
+        out.append(c)
+
+    base = {"channels": 8, "layers": 2, "dropout": 0.2}
+    enc = {"num_enc": "LinearEncoder", "cat_enc": "EmbeddingEncoder"}
+    add("MLP", dict(base, **enc, num_na=None, cat_na=None, norm="layer_norm"), "regression", [], "float64", 4, 2,
+        ["generic", "zero_inflated", "mid_ties", "top_ties"])
+    add("MLP", dict(base, **enc, num_na="mean", cat_na="most_frequent", norm="batch_norm", channels=4, layers=1,
+                    dropout=0.0), "binary", [2], "float32", 3, 2, ["generic", "binary", "single_value"], n=2)
+    add("ResNet", dict(base, **enc, num_na="zeros", cat_na=None, norm=None, channels=16, layers=3, dropout=0.3),
+        "multiclass", [1, 1], "float64", 3, 2, ["generic", "constant", "generic"])
+    add("TabTransformer", dict(base, heads=2, pad=2, attn_dropout=0.0, stypes="both"), "regression", [], "float64", 2, 2)
+    add("TabTransformer", dict(base, heads=1, pad=1, attn_dropout=0.2, stypes="both", channels=4), "binary", [1],
+        "float64", 2, 3)
+    add("Trompt", dict(base, num_enc=None, prompts=2), "regression", [], "float64", 2, 2)
+    add("Trompt", dict(base, **enc, num_na="mean", cat_na="most_frequent", prompts=4, layers=1), "binary", [1], "float64", 2, 2)
+    add("TabNet", dict(base, num_enc=None, attn_channels=8, gamma=1.2, shared=2, dep=2, cat_emb=2), "regression", [],
+        "float64", 2, 2)
+    add("TabNet", dict(base, **enc, num_na="zeros", cat_na=None, attn_channels=4, gamma=1.5, shared=0, dep=1, cat_emb=3,
+                       channels=4), "multiclass", [2], "float64", 2, 2)
+    add("ExcelFormer", dict(base, num_enc=None, heads=2, aium_dropout=0.1, residual_dropout=0.1), "regression", [],
+        "float64", 3, 0)
+    add("ExcelFormer", dict(base, num_enc="LinearPeriodicEncoder", cat_enc="EmbeddingEncoder", num_na="mean", cat_na=None,
+                            heads=4, aium_dropout=0.0, residual_dropout=0.2), "binary", [1], "float64", 2, 0)
+    add("FTTransformer", dict(base, num_enc="LinearBucketEncoder", cat_enc="EmbeddingEncoder", num_na=None, cat_na=None),
+        "regression", [], "float32", 2, 2, ["generic", "zero_inflated"])
+    return out
+
+
 def generate(rng, tier):
     """Per repetition: every model x every stype-encoder class the repository offers for numerical columns (plus the
     model's own default dictionary), the other constructor arguments drawn; repetition r uses the r-th history
     shape, so every (model, encoder class) is also scored at 0 training steps."""
     from torch_frame import stype as _st
-    cases = []
+    cases = required_cases()
     tasks = ["regression", "binary", "multiclass"]
     reps = 3 if tier == "quick" else 18
     num_classes = [c for c in P.encoder_classes(_st.numerical) if c in P.ENC_CTORS]
@@ -528,24 +576,32 @@ def _probe(case, ds, tf0, model, outc):
             # prefer a row whose cell is present: a missing categorical cell re-drawn as the most frequent
             # category is no change at all under NAStrategy.MOST_FREQUENT
             feat = tf.feat_dict[cols[j][0]][:, cols[j][1]]
-            present = [q for q in probe_rows
+            # any row of the batch may witness the influence (in a large batch not only the rows probed for leaks: a row
+            # with an extreme value in another column can saturate TabNet's attention and hide every other column)
+            pool = probe_rows if n <= 16 else [rng.randrange(n) for _ in range(24)]
+            present = [q for q in pool
                        if not (bool(torch.isnan(feat[q])) if feat.is_floating_point() else int(feat[q]) < 0)]
-            r = rng.choice(present or probe_rows)
-            t2 = P.clone_tf(tf)
-            P.perturb_cell(t2, r, cols[j], rng, size, ncats)
-            out2, pr2 = P.fwd_probes(mname, model, tf=t2, has_cat=has_cat)
-            ch = P.changed_rows(out, out2)
-            if ch is None:
-                col_leak.append([j, r, [-1]])
-                continue
-            for b, b2, m in zip(base, pr2, probe_fp):
-                if b is not None and b2 is not None and b.shape == b2.shape:
-                    for k in P.changed_positions(b, b2, r):
-                        m[j][k] = True
-            if r in ch:
-                col_reached[j] = True
-            if any(s != r for s in ch):
-                col_leak.append([j, r, ch[:8]])
+            cand = list(dict.fromkeys(present or pool))
+            rng.shuffle(cand)
+            # up to six witness rows per trial (a row whose other columns hold extreme values can hide this column)
+            for r in cand[:6]:
+                t2 = P.clone_tf(tf)
+                P.perturb_cell(t2, r, cols[j], rng, size, ncats)
+                out2, pr2 = P.fwd_probes(mname, model, tf=t2, has_cat=has_cat)
+                ch = P.changed_rows(out, out2)
+                if ch is None:
+                    col_leak.append([j, r, [-1]])
+                    continue
+                for b, b2, m in zip(base, pr2, probe_fp):
+                    if b is not None and b2 is not None and b.shape == b2.shape:
+                        for k in P.changed_positions(b, b2, r):
+                            m[j][k] = True
+                if any(s_ != r for s_ in ch):
+                    col_leak.append([j, r, ch[:8]])
+                if r in ch:
+                    col_reached[j] = True
+                    if not probe_incomplete(j):
+                        break
     o["rows"] = [[r, sorted(row_changed[r])] for r in probe_rows]
     o["cols"] = col_reached
     o["probe_fp"] = probe_fp
@@ -701,6 +757,7 @@ def stats(cases, obss):
             d[k][str(v)] = d[k].get(str(v), 0) + 1
         if not o.get("ok"):
             d["errors"] += 1
+            d["req_errors"] = d.get("req_errors", 0) + int(bool(c.get("req")))
             continue
         d["batch_sizes"][str(o["n"])] = d["batch_sizes"].get(str(o["n"]), 0) + 1
         for ph in o.get("hist", []):
@@ -709,6 +766,13 @@ def stats(cases, obss):
         if o.get("empty_shape") is not None:
             d["boundaries"]["scored_batch:0"] = 1
         d["with_missing"] += int(o["has_missing"])
+        if c.get("req"):
+            d["req_total"] = d.get("req_total", 0) + 1
+            d["req_with_missing"] = d.get("req_with_missing", 0) + int(o["has_missing"])
+            for cp in (o.get("probe_complete") or [])[:-1]:
+                if cp is not None:
+                    d["req_probes_total"] = d.get("req_probes_total", 0) + 1
+                    d["req_probes_incomplete"] = d.get("req_probes_incomplete", 0) + int(not cp)
         if o.get("ghost_sizes"):
             d["ghost_size_lists_compared"] = d.get("ghost_size_lists_compared", 0) + 1
         if o.get("enc_stage"):
@@ -912,10 +976,15 @@ def sanity(cases, obss):
             probs.append(f"model {m} never drawn")
     if d["kinds"].get("big", 0) == 0:
         probs.append("no batch larger than the 512-row ghost batch")
-    if d["total"] and d["errors"] > 0.2 * d["total"]:
-        probs.append(f"{d['errors']} of {d['total']} cases failed to run")
-    if d["total"] and d["with_missing"] < 0.5 * d["total"]:
-        probs.append("fewer than half of the frames contain missing cells")
+    # ratio requirements are evaluated over the deterministic "required" stream (the run's seed only drives the
+    # additional random stream)
+    nreq = d.get("req_total", 0) + d.get("req_errors", 0)
+    if nreq == 0:
+        probs.append("the deterministic required stream is missing")
+    if d.get("req_errors", 0) > 0.2 * max(nreq, 1):
+        probs.append(f"{d.get('req_errors')} of {nreq} required cases failed to run")
+    if d.get("req_with_missing", 0) < 0.5 * max(d.get("req_total", 0), 1):
+        probs.append("fewer than half of the required frames contain missing cells")
     if sum(v for k, v in d.get("histories", {}).items() if k != "[]") < 0.5 * d["total"]:
         probs.append("fewer than half of the cases have a train/eval history")
     if not any(len(json.loads(k)) >= 2 for k in d.get("histories", {})):
@@ -937,8 +1006,9 @@ def sanity(cases, obss):
         for cls in drawn:
             if cls != "None" and d.get("zero_step_encoders", {}).get(f"{m}/{cls}", 0) == 0:
                 probs.append(f"{m} with {cls} never scored at 0 training steps")
-    if d.get("probes_total", 0) and d.get("probes_incomplete", 0) > 0.05 * d["probes_total"]:
-        probs.append(f"{d['probes_incomplete']} of {d['probes_total']} intermediate probes were compared for soundness only")
+    if d.get("req_probes_total", 0) and d.get("req_probes_incomplete", 0) > 0.05 * d["req_probes_total"]:
+        probs.append(f"{d['req_probes_incomplete']} of {d['req_probes_total']} intermediate probes of the required stream "
+                     f"were compared for soundness only")
     for cls in ("LinearBucketEncoder", "LinearPeriodicEncoder"):
         if d.get("encoder_stage_compared", {}).get(cls, 0) == 0:
             probs.append(f"the encoder stage of {cls} was never compared with C13's model")
